@@ -337,7 +337,8 @@ def check_translate(ctx, w):
     tr = expr.assign_trace(f.node, env)
     ctx.ob('G-TRANS', f.construct, 'translate_indirect gate',
            tr.get('translate_indirect') == [('=', expr.spec_cond('has_top_DIE(cu) or offset != cu_die_offset'))], got=tr.get('translate_indirect'))
-    rets = [expr.nfs(r.value, env) for r in f.node.body if isinstance(r, ast.Return)]
+    # the path on which no form test succeeded (every branch outcome negative) returns the raw value
+    rets = sorted(set(expr.nfs(r, env) for c, r, p in paths.returns_with_conds(f.node) if c and not any(pol for t, pol in c)))
     ctx.ob('G-TRANS', f.construct, 'other forms keep the raw value', rets == ['raw_value'], got=rets)
     # sibling agreement: the form set of _translate_indirect_attributes == union of the index-form branches
     g2 = w.model.func(DIE, 'DIE._translate_indirect_attributes')
